@@ -721,6 +721,12 @@ fn definitions_job(ctx: &Ctx, job: usize, rounds: u64) -> Stats {
 /// compared with the reference — a result remembered from exactly one period ago is a wrong one.
 pub(crate) fn periodic_revisit_job(ctx: &Ctx, which: &str, period: usize, rounds: usize) -> Stats {
     let mut st = Stats::new();
+    engine_block(&mut st, which, "periodic", |s| s.merge(periodic_revisit_inner(ctx, which, period, rounds)));
+    st
+}
+
+fn periodic_revisit_inner(ctx: &Ctx, which: &str, period: usize, rounds: usize) -> Stats {
+    let mut st = Stats::new();
     let mut rng = Rng::stream(ctx.seed, "C13.periodic", period as u64);
     let env: BDDEnv<usize> = BDDEnv::new();
     let n = 6u32;
